@@ -273,7 +273,7 @@ def rho_valid(tree, x, coefs, chat, rho_try, complex_dirs, mp):
     K = len(coefs) - 1
     for rho in rho_try:
         ok = True
-        scale = max(c * rho ** k for k, c in enumerate(chat))
+        scale = max(mp.mpf(c) * mp.mpf(rho) ** k for k, c in enumerate(chat))     # (mpmath: rho**k may exceed the float range)
         for d in dirs:
             t = d * mp.mpf(rho)
             acc = coefs[K]
